@@ -121,6 +121,15 @@ def c12_u(dom, J, m):
                        {"path": dom.path()})
             elif n in names:
                 J.nontriv += 1
+    # R12.3: without_extras() is exclude("extra")
+    try:
+        w = dom.call(m, "without_extras", budget=B)
+        e = dom.call(m, "exclude", "extra", budget=B)
+        J.n += 1
+        if dom.key(w) != dom.key(e):
+            J.fail("R12.3", f"{_cls(m)}.without_extras", f"({dom.show(m)}).without_extras() -> {dom.show(w)} differs from exclude('extra') -> {dom.show(e)}")
+    except PyRaise:
+        pass
     if len(J.samples) < 1 and m.cls in (dom.MM, dom.MU):
         J.samples.append({"marker": dom.show(m), "names": names})
 
